@@ -68,17 +68,19 @@ def run_prop(run, scr, tier, seed, prop, e1=None, diff=(), diff_load=(2, 8), ext
     # E1 part
     results = []
     if hint_fallback:
-        e1 = list(e1 or []) + [Harness('verif_kani::c08::' + w, prop, timeout=2400, loop_rules=[(r'hint_bit_unpack::<2>', 12)],
-                                       bounds='fallback for the refused loop lemmas: hint_bit_unpack::<2>(omega=8), count bytes + 4-byte window symbolic') for w in ('c08_hint_window_0', 'c08_hint_window_2', 'c08_hint_window_4')]
-        e1.append(Harness('verif_kani::c08::c08_hint_k3_counts', prop, timeout=3000, loop_rules=[(r'hint_bit_unpack::<3>', 10)],
-                          bounds='fallback for the refused loop lemmas: hint_bit_unpack::<3>(omega=6), the three count bytes and two position bytes symbolic (count patterns that need a middle polynomial)'))
-        run.add_query({'name': 'hint_bit_unpack loop lemmas', 'engine': 'E2', 'verdict': 'refused', 'note': 'decoder restructured; decided by the Kani window harnesses (K = 2 windows, K = 3 counts) instead'}, core=False)
-        # the structured codec differential at the real (K, omega) is cheap: with the lemmas gone it runs unconditionally
+        # the structured codec differential at the real (K, omega) is cheap: with the lemmas gone it runs first; the slow Kani window
+        # harnesses (K = 2 windows, K = 3 counts) only run if it finds nothing
         from props import c08 as _c08
         res8, msgs8 = _c08.native(scr)
         run.add_query({'name': 'native codec differential at the real (K, omega) (runs because the hint loop lemmas were refused)', 'engine': 'native (confirmation workload)', 'verdict': 'holds' if set(res8.values()) == {'pass'} else ('sat' if 'fail' in res8.values() else 'unknown'), 'detail': str(msgs8[:2])[:300]}, core=False)
+        run.add_query({'name': 'hint_bit_unpack / hint_bit_pack loop lemmas', 'engine': 'E2', 'verdict': 'refused', 'note': 'hint codec restructured; decided by the native differential and the Kani window harnesses (K = 2 windows, K = 3 counts) instead'}, core=False)
         if 'fail' in res8.values():
             mism.append({'name': 'hint_bit_unpack / hint_bit_pack (restructured hint codec): native codec differential against Algorithms 20 / 21', 'detail': str(msgs8[:3])[:300]})
+        else:
+            e1 = list(e1 or []) + [Harness('verif_kani::c08::' + w, prop, timeout=2400, loop_rules=[(r'hint_bit_unpack::<2>', 12)],
+                                           bounds='fallback for the refused loop lemmas: hint_bit_unpack::<2>(omega=8), count bytes + 4-byte window symbolic') for w in ('c08_hint_window_0', 'c08_hint_window_2', 'c08_hint_window_4')]
+            e1.append(Harness('verif_kani::c08::c08_hint_k3_counts', prop, timeout=3000, loop_rules=[(r'hint_bit_unpack::<3>', 10)],
+                              bounds='fallback for the refused loop lemmas: hint_bit_unpack::<3>(omega=6), the three count bytes and two position bytes symbolic (count patterns that need a middle polynomial)'))
     if e1:
         hs = e1
         if only:
